@@ -57,11 +57,18 @@ NAMES = ["A", "B", "C", "K", "M", "N", "P", "Q", "T", "U", "XY", "Z9"]
 def build(case):
     rng = random.Random(case["seed"])
     nvars = rng.randint(1, 5)
-    names = rng.sample(NAMES, nvars)
     spec = []      # (name, is_str, ndims(0 scalar), dimmed bounds or None, positions)
-    for nm in names:
-        is_s = rng.random() < 0.55
-        nd = rng.choice([0, 0, 1, 1, 2, 3])
+    if rng.random() < 0.35:
+        # one name in several of its four kinds (scalar / array, numeric / string are four different variables), so that
+        # look-alike entries meet in one DIM statement
+        base = rng.choice(NAMES)
+        idents = rng.sample([(base, s_, a_) for s_ in (False, True) for a_ in (False, True)], rng.randint(2, 4))
+        idents += [(nm, None, None) for nm in rng.sample([x for x in NAMES if x != base], max(0, nvars - len(idents)))]
+    else:
+        idents = [(nm, None, None) for nm in rng.sample(NAMES, nvars)]
+    for nm, fs, fa in idents:
+        is_s = rng.random() < 0.55 if fs is None else fs
+        nd = rng.choice([0, 0, 1, 1, 2, 3]) if fa is None else (rng.choice([1, 1, 2]) if fa else 0)
         dimmed = None
         if rng.random() < (0.5 if nd <= 1 else 0.85):
             dimmed = [rng.choice([0, 1, 3, 5, 10, 12, 255]) for _ in range(nd)]
